@@ -431,6 +431,70 @@ def dgram_absent_case(rng):
     return g.line(), g.stats
 
 
+def tx_case(rng):
+    """transaction layer (ping transactions only; the table stays below 8 nodes and is never housekept
+    while non-empty, so that the server starts no DhtSearch): a scripted node queries, is pinged,
+    answers / answers wrongly / sends an error / stays silent"""
+    g = Gen(rng, loop=True)
+    hdr = g.head().split()
+    fillc = (int(hdr[2]) + 7 * int(hdr[3])) & 0x7fffffff
+    nodes = 0
+    if rng.random() < 0.3:
+        g.emit("H,%d" % rng.getrandbits(31))       # empty table: no search, m_networkUp reset
+        g.prev, g.cur = g.cur, int(g.ops[-1].split(",")[1])
+    for _ in range(rng.choice([2, 4, 7])):
+        ip = rng.choice(g.ips)
+        x = hid(g.new_id() or 5)
+        rnd = rng.getrandbits(31)
+        tid = rnd & 255
+        how = rng.random()
+        if how < 0.75:
+            g.emit(U(ip, q=QN[rng.choice(["ping", "find_node", "get_peers"])], id=x, target=hid(g.new_id()), ih=hid(g.ihs[0]), rnd=rnd))
+        else:
+            g.emit("Q,%s,%d,%d" % (x, ip, rng.randrange(1, 1024)))
+            tid = fillc & 255
+            if rng.random() < 0.5:
+                g.emit("X,%d,%s" % (ip, b"zz".hex()))      # flushes the queued ping
+        g.emit("Z")
+        r = rng.random()
+        other = rng.choice([i for i in g.ips if i != ip])
+        if r < 0.30:
+            g.emit("Y,%d,%02x,%s" % (ip, tid, x)); nodes += 1
+        elif r < 0.40:
+            g.emit("Y,%d,%02x,%s" % (ip, tid, hid(g.new_id() or 7)))        # wrong id: ignored, transaction kept
+            g.emit("Z")
+            g.emit("Y,%d,%02x,%s" % (ip, tid, x)); nodes += 1
+        elif r < 0.50:
+            g.emit("Y,%d,%02x,%s" % (ip, (tid + rng.choice([1, 128, 255])) & 255, x))   # wrong transaction id
+        elif r < 0.58:
+            g.emit("Y,%d,%02x,%s" % (other, tid, x))                         # right id/tid from another address
+        elif r < 0.66:
+            g.emit("Y,%d,%s,%s" % (ip, rng.choice(["%02x%02x" % (tid, tid), "-", "~", "!", "61" * 21]), x))
+        elif r < 0.72:
+            g.emit("Y,%d,%02x,%s" % (ip, tid, rng.choice(["~", "!", x[:38], hid(g.own)])))
+        elif r < 0.82:
+            g.emit("E,%d,%s" % (ip, rng.choice(["%02x" % tid, "%02x" % ((tid + 1) & 255), "%02x%02x" % (tid, tid), "~"])))
+        else:
+            if rng.random() < 0.6:
+                g.emit("R,%s,%d,%d" % (x, ip, rng.randrange(1, 1024))); nodes += 1   # the node becomes known by other means
+            g.emit("T,%d" % rng.choice([29, 30, 31, 60]))
+            g.emit("S")
+        g.emit("Z")
+        g.emit("D")
+        if nodes >= 7:
+            break
+    if rng.random() < 0.5:
+        g.emit("T,31")
+        g.emit("S")
+        g.emit("Z")
+        g.emit("D")
+    if rng.random() < 0.3:
+        g.emit("H,%d" % rng.getrandbits(31))
+        g.emit("Z")
+        g.emit("Y,%d,00,%s" % (g.ips[0], hid(5)))
+    return g.line(), g.stats
+
+
 def many_peers_case(rng, n):
     g = Gen(rng)
     ih = g.ihs[0]
@@ -512,11 +576,11 @@ def gen(seed, tier):
     for h in HAND:
         add("hand", (h, {}))
     q = tier == "quick"
-    for _ in range(90 if q else 1200):
+    for _ in range(70 if q else 1200):
         add("random", random_case(rng, rng.choice([10, 30, 60, 120]), rng.choice([0, 3, 8])))
-    for _ in range(4 if q else 40):
+    for _ in range(2 if q else 40):
         add("random-long", random_case(rng, 400, 25))
-    for _ in range(14 if q else 150):
+    for _ in range(10 if q else 150):
         add("deep-split", deep_split_case(rng, rng.choice([12, 40, 100, 159])))
     for _ in range(12 if q else 100):
         add("cluster", cluster_case(rng))
@@ -537,6 +601,8 @@ def gen(seed, tier):
         add("dgram-flow", dgram_flow_case(rng))
     for _ in range(2 if q else 10):
         add("dgram-absent", dgram_absent_case(rng))
+    for _ in range(30 if q else 400):
+        add("tx", tx_case(rng))
     for _ in range(2 if q else 10):
         add("dgram-ports", dgram_ports_case(rng))
     for n in ([40] if q else [33, 64, 130]):
